@@ -189,13 +189,13 @@ class ODataLexer(Lexer):
         t.value = ast.Integer(t.value)
         return t
 
-    @_(r"true|false")
+    @_(r"(?:true|false)(?!\w)")
     def BOOLEAN(self, t):
         ":meta private:"
         t.value = ast.Boolean(t.value)
         return t
 
-    @_(r"null")
+    @_(r"null(?!\w)")
     def NULL(self, t):
         ":meta private:"
         t.value = ast.Null()
@@ -309,13 +309,13 @@ class ODataLexer(Lexer):
     ####################################################################################
     # Collection operators
     ####################################################################################
-    @_(r"any")
+    @_(r"any(?!\w)")
     def ANY(self, t):
         ":meta private:"
         t.value = ast.Any()
         return t
 
-    @_(r"all")
+    @_(r"all(?!\w)")
     def ALL(self, t):
         ":meta private:"
         t.value = ast.All()
